@@ -1,11 +1,9 @@
 pub(super) struct Splitter<'a> {
     input: &'a str,
 
-    #[cfg(feature = "docgen")]
     code: Code,
 }
 
-#[cfg(feature = "docgen")]
 enum Code {
     No,
     First,
@@ -17,7 +15,6 @@ enum Code {
 pub(super) fn split(input: &str) -> Splitter {
     Splitter {
         input,
-        #[cfg(feature = "docgen")]
         code: Code::No,
     }
 }
@@ -55,7 +52,6 @@ impl<'a> Iterator for Splitter<'a> {
             return None;
         }
 
-        #[cfg(feature = "docgen")]
         if matches!(self.code, Code::First | Code::Rest) {
             if matches!(self.code, Code::Rest) && self.input.starts_with("```") {
                 self.code = Code::No;
@@ -91,10 +87,7 @@ impl<'a> Iterator for Splitter<'a> {
                 };
                 Some(Chunk::Raw(code, Chunk::CODE))
             } else if tail.starts_with("\n```") {
-                #[cfg(feature = "docgen")]
-                {
-                    self.code = Code::First;
-                }
+                self.code = Code::First;
                 self.input = &tail[1..];
                 Some(Chunk::Paragraph)
             } else if tail.starts_with("\n    ") {
